@@ -635,6 +635,17 @@ func boundedAcceptance() (ok bool) {
 					kvs = append(kvs[2:], kvs[:2]...)
 				}
 				tok := wMap(kvs)
+				// C09, second sentence, on every token of this family that DECODES (valid or not): re-encoding
+				// gives bytes that decode to the same getter results, or the encoder returns an error
+				if d0, e0 := DecodeClaimsFromCBOR(tok); e0 == nil {
+					if b1, e1 := EncodeClaimsToCBOR(d0); e1 == nil {
+						d1, e2 := DecodeClaimsFromCBOR(b1)
+						if e2 != nil || getterView(d1) != getterView(d0) {
+							fmt.Printf("bounded: acceptance: %s key %d variant %s: token %x re-encodes to %x, which decodes to something else (%v)\n", name, cl.key, v.name, tok, b1, e2)
+							return false
+						}
+					}
+				}
 				c, err := DecodeAndValidateClaimsFromCBOR(tok)
 				if (err == nil) != v.ok {
 					fmt.Printf("bounded: acceptance: %s key %d variant %s: accepted=%v, conformant=%v (%v) token %x\n", name, cl.key, v.name, err == nil, v.ok, err, tok)
